@@ -365,6 +365,29 @@ func ScalarSpecials() []V {
 		add(v.X, v.Class)
 	}
 
+	// scalars that are constants of the curve: the eigenvalues of the endomorphism (the primitive cube roots of unity
+	// mod n) and their negatives, the coordinates of G and p reduced mod n, 2^256 mod n and its inverse
+	e3 := new(big.Int).Div(new(big.Int).Sub(n, big.NewInt(1)), big.NewInt(3))
+	for g := int64(2); g < 20; g++ {
+		l := new(big.Int).Exp(big.NewInt(g), e3, n)
+		if l.Cmp(big.NewInt(1)) != 0 {
+			l2 := new(big.Int).Mod(new(big.Int).Mul(l, l), n)
+			add(l, "lambda")
+			add(l2, "lambda")
+			add(new(big.Int).Sub(n, l), "lambda")
+			add(new(big.Int).Sub(n, l2), "lambda")
+			add(addI(l, 1), "lambda±1")
+			add(addI(l, -1), "lambda±1")
+
+			break
+		}
+	}
+
+	rn := new(big.Int).Mod(two256, n)
+	for _, x := range []*big.Int{oracle.Mod(oracle.Gx, n), oracle.Mod(oracle.Gy, n), oracle.Mod(oracle.P, n), rn, new(big.Int).ModInverse(rn, n), oracle.Mod(oracle.Beta, n)} {
+		add(x, "curve-constant")
+	}
+
 	return out
 }
 
